@@ -399,6 +399,8 @@ def main():
             "samples": samples,
             "obligations": obligations,
             "discharged": discharged,
+            "programs": len(jobs),
+            "disagreements_checked": len(violations),
             "structural_checks": structural_total,
             "structural_ok": structural_ok,
             "solver_queries": len(work),
